@@ -19,3 +19,7 @@ def run(prog, rep):
     r_key.run_getters(prog, rep, only=dims, floor=4)
     r_codec.run_string_enum(prog, rep, 'nix::DimensionType', 'nix::hdf5::dimensionTypeToStr', 'nix::hdf5::dimensionTypeFromStr', 'DIM')
     r_codec.run_dim_open(prog, rep)
+    from ..rules import r_mbt
+    r_mbt.run(prog, rep, only=r'^nix::DataArray::(append|create)\w*Dimension', floor=6)
+    from ..rules import r_safe
+    r_safe.run_colidx(prog, rep)
